@@ -412,8 +412,7 @@ class Ctx(object):
     def finish(self, level='proof'):
         # broken ties / proofs for which no concrete failing input was found
         for kind, name, detail in self.broken:
-            if name in self.concrete_found:
-                continue
+            # reported even when a concrete failing input was also found (never silently dropped)
             h = case_hash([kind, name])
             path = os.path.join(BUILD, 'replay', '%s_broken_%s.json' % (self.prop, h))
             with open(path, 'w') as f:
